@@ -280,8 +280,9 @@ class _World:
 
             def wrap(tag, f):
                 def rec(g1, g2, *a, **k):
-                    W.trace.append((tag, id(g1), id(g2)))
-                    return f(g1, g2, *a, **k)
+                    r = f(g1, g2, *a, **k)
+                    W.trace.append((tag, id(g1), id(g2), r))       # the verdict of every single test is compared too
+                    return r
                 return rec
             W.trace = []
             m_gc.graph_isomorphism, m_bc.graph_isomorphism = wrap("gc", saved[0]), wrap("bc", saved[1])
@@ -297,11 +298,11 @@ class _World:
         off = self.n if self.side(_op_idxs(op)) else 0
         toff = self.n if self.tside else 0
         out = []
-        for tag, a, b in self.trace:
+        for tag, a, b, r in self.trace:
             ga, gb = self.by_obj.get(a), self.by_obj.get(b)
             ia = -1 if ga is None else self.state[ga] + (off if tag == "gc" else toff)
             ib = -1 if gb is None else self.state[gb] + off
-            out.append([ia, ib])
+            out.append([ia, ib, r if isinstance(r, bool) else ["not-a-bool", repr(r)[:30]]])
         return out
 
     # ---- objects under test
